@@ -332,20 +332,20 @@ End Honest.
     whose binding is NOT broken (a signature recovers to its key only under its own message). *)
 Definition ex_cp (tid body est : Z) : Z := (tid * 1000 + body) * 100000000 + est.
 Definition ex_sign (k m : Z) : Z * Z := (k, m).
-Definition ex_addr (k : Z) : addr := 100 + k.
+Definition ex_addr (k : Z) : addr := 2 * k + 200.
 Definition ex_recover (m : Z) (sg : Z * Z) : option addr :=
-  if snd sg =? m then Some (ex_addr (fst sg)) else Some (-1 - fst sg).
+  if snd sg =? m then Some (ex_addr (fst sg)) else Some (2 * fst sg + 1).
 
 Lemma ex_binding_intact : ~ recover_binding_broken ex_recover ex_sign ex_addr.
 Proof.
-  intros (k & m & m' & N & R). unfold ex_recover, ex_sign, ex_addr in R. cbn in R.
+  intros (k & m & m' & N & R). unfold ex_recover, ex_sign, ex_addr in R. cbv [fst snd] in R.
   destruct (m =? m') eqn:E; [apply Z.eqb_eq in E; contradiction|].
-  inversion R. lia.
+  injection R as R. lia.
 Qed.
 
 (** build, estimate elected, validator 5 (key 5) signs the re-issued checkpoint *)
 Definition ex_history : list (op (Z * Z)) :=
-  [OSetTid 1 7; OSetReg [(1, 5, 105); (1, 6, 106)]; OBuild 1 1 42; OEstimate 1 21000].
+  [OSetTid 1 7; OSetReg [(1, 5, 210); (1, 6, 212)]; OBuild 1 1 42; OEstimate 1 21000].
 Definition ex_reissued : Z := ex_cp 7 42 21000.
 
 (** The pinned tree (UpdateBatchGasEstimate does not archive): the honest confirmation of the
